@@ -32,7 +32,7 @@ CFG = {
             "BitvectorExtended::{signed_add_overflow_checked, signed_sub_overflow_checked, signed_mult_with_overflow_flag, subpiece, bin_op(Piece)} as called from there",
             "gcd::Gcd::gcd for u64 (dependency, executed symbolically, not stubbed)",
         ],
-        "bounds": "layer 1 only (struct Interval); all well-formed 1-byte strided intervals (start, end, stride fully symbolic, stride <= 255) and all members; piece 1+1 bytes; subpiece of 2-byte intervals (strides <= 255) and 4-byte intervals (strides <= 15); zero-extension 1->2 and 1->8 bytes; 8-byte contains/negation with strides <= 16; "
+        "bounds": "layer 1 only (struct Interval); `sub` per concrete stride pair (quick: 4 pairs, thorough: all 121 pairs with strides 0..=10; start, end and both members symbolic); all well-formed 1-byte strided intervals (start, end, stride fully symbolic, stride <= 255) and all members; piece 1+1 bytes; subpiece of 2-byte intervals (strides <= 255) and 4-byte intervals (strides <= 15); zero-extension 1->2 and 1->8 bytes; 8-byte contains/negation with strides <= 16; "
                   "loop unwinding 4, binary-gcd loop 18 (>= 2*8+2), unwinding assertions on. Outside: IntervalDomain-level dispatch and widening hints (decided by the result-validation engine, see C02 evidence 'domain_layer'), 8-byte add/sub/mul",
         "oracle": "membership and well-formedness recomputed from the public fields start/end/stride on native integers; concrete operation = C01 reference semantics",
     },
@@ -58,7 +58,7 @@ CFG = {
             "Interval::signed_intersect, compute_intersection_residue_class, extended_gcd, adjust_to_stride_and_remainder (abstract_domain/interval/simple_interval.rs)",
         ],
         "bounds": "1-byte strided intervals: start, end and the member are fully symbolic, the stride PAIR is concrete per call (with concrete strides the extended Euclid, gcd and lcm are constants for the solver). "
-                  "quick: the pairs (8,10), (6,4), (5,3), (7,0 = singleton); thorough: all 169 pairs with strides 0..=12 (26 half-row harnesses), plus two harnesses with fully symbolic strides <= 15 / <= 3 "
+                  "quick: the pairs (8,10), (6,4), (5,3), (7,0 = singleton); thorough: all 121 pairs with strides 0..=10 (22 half-row harnesses), plus two harnesses with fully symbolic strides <= 15 / <= 3 "
                   "that are marked stretch (attempted; a time-out is recorded as undecided). Recursion/loop unwinding 16 (extended Euclid on operands <= 15 needs <= 7 steps), unwinding assertions on. "
                   "The signed/unsigned <=, >=, != refinements of IntervalDomain/DataDomain and intersections at 2..16 bytes are decided by the result-validation part of this check",
         "oracle": "membership recomputed from start/end/stride on native integers (src/c02.rs: ref_contains)",
@@ -127,7 +127,8 @@ def run(prop, tier):
                     "functions_encoded": cfg["functions"], "bounds": cfg["bounds"]})
         write_evidence(prop, tier, "proof", cov, COMMON_ASSUMPTIONS[-1:] + ["domain layer: abstract inputs generated (boundary-biased, seeded), real operation run natively, z3 decides coverage for all concrete members"], time.time() - t0, len(v))
         return finish(prop, v, inc)
-    jobs = int(os.environ.get("VERIF_JOBS", "12"))
+    # thorough harnesses need 3-5 GB each (62 GB machine): fewer in parallel
+    jobs = int(os.environ.get("VERIF_JOBS", "12" if tier == "quick" else "8"))
     per_harness = int(os.environ.get("VERIF_HARNESS_TIMEOUT", "600" if tier == "quick" else "2700"))
     extra = list(cfg.get("extra_cbmc", []))
     if cfg.get("unwindset"):
@@ -143,8 +144,17 @@ def run(prop, tier):
                     sets.append("%s.%d:%d" % (i, k, bound))
         if sets:
             extra += ["--unwindset", ",".join(sets)]
-    cmd, rc, out, wall = K.run_kani(full, jobs=jobs, harness_timeout=per_harness, unwind=cfg["unwind"], extra_cbmc=extra, features=features)
+    normal = [h for h in full if h not in stretch]
+    cmd, rc, out, wall = K.run_kani(normal, jobs=jobs, harness_timeout=per_harness, unwind=cfg["unwind"], extra_cbmc=extra, features=features)
     res = K.parse(out)
+    if stretch:
+        # stretch harnesses are memory-hungry (10-20 GB each): two at a time, after the others
+        st = [h for h in full if h in stretch]
+        stretch_cap = int(os.environ.get("VERIF_STRETCH_TIMEOUT", "1200"))
+        _, rc2, out2, _ = K.run_kani(st, jobs=2, harness_timeout=stretch_cap, unwind=cfg["unwind"], extra_cbmc=extra, features=features)
+        res.update(K.parse(out2))
+        out += "\n" + out2
+        rc = rc or (rc2 if not K.parse(out2) else 0)
     os.makedirs(os.path.join(K.BUILD if hasattr(K, "BUILD") else os.path.join(VERIF, ".build"), "logs"), exist_ok=True)
     open(os.path.join(VERIF, ".build", "logs", "%s_%s.log" % (prop, tier)), "w").write(out)
 
@@ -175,7 +185,7 @@ def run(prop, tier):
             else:
                 discharged += 1
         elif r.get("why") in ("timeout", "oom") and h in stretch:
-            entry["note"] = "stretch harness: %s under the per-harness cap of %ds -- undecided, outside the claim of this run" % (r["why"], per_harness)
+            entry["note"] = "stretch harness: %s under its cap -- undecided, outside the claim of this run" % r["why"]
             undecided_stretch.append(h)
         elif r.get("why") in ("timeout", "oom"):
             inconclusive.append("%s: %s under the per-harness cap of %ds" % (h, r["why"], per_harness))
